@@ -902,7 +902,10 @@ def rule_keywords(P) -> RuleResult:
     for r in model.rules:
         walk(r.exp)
     for t in sorted(toks):
-        if t in kws:
+        if t in kws and t in UNRESERVED:
+            res.fail('grammar:@@keyword', f'keywords:reserved:{t}', f'`{t}` is a word of BQL that is also a legal identifier (a target alias, an '
+                     f'attribute, a function or placeholder name): reserving it rejects statements whose printed text was valid')
+        elif t in kws:
             res.ok({'token': t, 'reserved': True})
         elif t in UNRESERVED:
             res.ok({'token': t, 'reserved': False, 'allowed': 'deliberately usable as an identifier'})
